@@ -207,16 +207,97 @@ Proof.
 Qed.
 
 (* ---------------------------------------------------------------------------------------- *)
-Section Proofs.
-Variable sha1 : bytes -> bytes.
-Variables ige_e ige_d : bytes -> bytes -> bytes -> bytes.
+(* unencrypted (key exchange) messages *)
 
+Lemma unenc_parse (a b e body : bytes) :
+  length a = 8%nat -> length b = 8%nat -> length e = 4%nat ->
+  let d := a ++ b ++ e ++ body in
+  slice d 0 8 = a /\ slice d 8 16 = b /\ slice d 16 20 = e /\ skipn 20 d = body /\
+  length d = (20 + length body)%nat.
+Proof.
+  intros Ha Hb He.
+  do 8 (destruct a as [|? a]; [discriminate Ha|]). destruct a; [|discriminate Ha].
+  do 8 (destruct b as [|? b]; [discriminate Hb|]). destruct b; [|discriminate Hb].
+  do 4 (destruct e as [|? e]; [discriminate He|]). destruct e; [|discriminate He].
+  cbn [app]. unfold slice. cbn [Nat.sub skipn firstn length]. repeat split.
+Qed.
+
+Theorem unencrypted_layout msgid body :
+  let d := serialize_unencrypted msgid body in
+  slice d 0 8 = repeat 0 8 /\ slice d 8 16 = le64 msgid /\
+  slice d 16 20 = le32 (N.of_nat (length body) mod 4294967296) /\ skipn 20 d = body /\
+  length d = (20 + length body)%nat /\ is_packet_encrypted d = false.
+Proof.
+  cbv zeta. unfold serialize_unencrypted.
+  destruct (unenc_parse (le64 0) (le64 msgid) (le32 (N.of_nat (length body) mod 4294967296)) body
+              eq_refl eq_refl eq_refl) as (U1 & U2 & U3 & U4 & U5). cbv zeta in *.
+  repeat split; assumption.
+Qed.
+
+Theorem unencrypted_roundtrip msgid body :
+  msgid < 18446744073709551616 -> N.of_nat (length body) < 4294967296 ->
+  deserialize_unencrypted (serialize_unencrypted msgid body) =
+  if server_parity msgid then Ok (mkumsg msgid body) else Err.
+Proof.
+  intros Hid Hlen. unfold deserialize_unencrypted, serialize_unencrypted.
+  destruct (unenc_parse (le64 0) (le64 msgid) (le32 (N.of_nat (length body) mod 4294967296)) body
+              eq_refl eq_refl eq_refl) as (U1 & U2 & U3 & U4 & U5). cbv zeta in *.
+  set (d := le64 0 ++ le64 msgid ++ le32 (N.of_nat (length body) mod 4294967296) ++ body) in *.
+  unfold new_decoder. rewrite pop_raw_ok; [|lia|intros E; rewrite E in U5; cbn in U5; lia|lia].
+  cbn [obind snd]. change (Z.to_nat 8) with 8%nat.
+  rewrite pop_word_ok by (rewrite skipn_length; lia).
+  rewrite skipn_add. cbn [Nat.add].
+  change (firstn 8 (skipn 8 d)) with (slice d 8 16). rewrite U2, of_le_le64 by exact Hid.
+  destruct (server_parity msgid); cbn [negb]; [|reflexivity].
+  rewrite pop_word_ok by (rewrite skipn_length; lia).
+  rewrite skipn_add. cbn [Nat.add].
+  change (firstn 4 (skipn 16 d)) with (slice d 16 20). rewrite U3, of_le_le32 by lia.
+  rewrite N.mod_small by lia. rewrite U5.
+  destruct (Z.eqb_spec (Z.of_nat (20 + length body) - 20) (Z.of_N (N.of_nat (length body)))); [|lia].
+  cbn [negb d_rest]. rewrite U4. reflexivity.
+Qed.
+
+(* ---------------------------------------------------------------------------------------- *)
+(* facts that do not mention SHA-1 or IGE *)
+
+Lemma deserialize_unencrypted_no_panic data : deserialize_unencrypted data <> Panic.
+Proof.
+  unfold deserialize_unencrypted.
+  destruct (pop_raw_nonneg 8 (new_decoder data) ltac:(lia)) as [r ->]. cbn [obind].
+  destruct (pop_word 8 (snd r)) as [msgid d].
+  destruct (negb (server_parity msgid)); [discriminate|].
+  destruct (pop_word 4 d) as [mlen d'].
+  destruct (negb (Z.of_nat (length data) - 20 =? Z.of_N mlen)%Z); discriminate.
+Qed.
+
+Lemma pkt_parts (a m c : bytes) :
+  length a = 8%nat -> length m = 16%nat ->
+  substr (a ++ m ++ c) 0 8 = a /\ substr (a ++ m ++ c) 8 16 = m /\ skipn 24 (a ++ m ++ c) = c /\
+  length (a ++ m ++ c) = (24 + length c)%nat.
+Proof.
+  intros Ha Hm.
+  do 8 (destruct a as [|? a]; [discriminate Ha|]). destruct a; [|discriminate Ha].
+  do 16 (destruct m as [|? m]; [discriminate Hm|]). destruct m; [|discriminate Hm].
+  cbn [app]. unfold substr. cbn [skipn firstn length]. repeat split.
+Qed.
+
+Lemma serialize_packet_length salt sid msgid seq ack body :
+  length (serialize_packet salt sid msgid seq ack body) = (32 + length body)%nat.
+Proof. unfold serialize_packet. rewrite !app_length, !le64_length, !le32_length. lia. Qed.
+
+Definition seq_ack (seq : N) (ack : bool) : N := if ack then N.lor seq 1 else seq.
+
+Lemma seq_ack_lt seq ack : seq < 4294967296 -> seq_ack seq ack < 4294967296.
+Proof. destruct ack; cbn [seq_ack]; [apply lor1_lt|auto]. Qed.
+
+(* ---------------------------------------------------------------------------------------- *)
+(* key schedule: no hypothesis on SHA-1 *)
+Section KeySchedule.
+Variable sha1 : bytes -> bytes.
 Notation msg_key := (msg_key sha1).
 Notation auth_key_id := (auth_key_id sha1).
 Notation kiv := (kiv sha1).
 Notation kiv_spec := (kiv_spec sha1).
-
-(* ---- facts that need no hypothesis ---- *)
 
 Lemma kiv_no_panic x key mk : (96 + x + 32 <= length key)%nat -> exists ki, kiv x key mk = Ok ki.
 Proof. intros H. unfold Envelope.kiv. destruct (Nat.ltb_spec (length key) (96 + x + 32)); [lia|eauto]. Qed.
@@ -230,9 +311,21 @@ Proof.
   destruct to_server; reflexivity.
 Qed.
 
+End KeySchedule.
+
+(* ---------------------------------------------------------------------------------------- *)
+(* receive path (C04): SHA-1 and IGE decryption are arbitrary functions, no hypothesis *)
+Section Receive.
+Variable sha1 : bytes -> bytes.
+Variable ige_d : bytes -> bytes -> bytes -> bytes.
+Notation msg_key := (msg_key sha1).
+Notation auth_key_id := (auth_key_id sha1).
+Notation kiv := (kiv sha1).
+Notation kiv_spec := (kiv_spec sha1).
+
 Lemma decrypt_no_panic enc key mk : (136 <= length key)%nat -> decrypt sha1 ige_d enc key mk <> Panic.
 Proof.
-  intros H. unfold decrypt. destruct (kiv_no_panic 8 key mk ltac:(lia)) as [ki ->]. cbn [obind].
+  intros H. unfold decrypt. destruct (kiv_no_panic sha1 8 key mk ltac:(lia)) as [ki ->]. cbn [obind].
   destruct (negb (aes_key_len_ok (fst ki))); [discriminate|].
   destruct (negb (correct_data enc)); discriminate.
 Qed.
@@ -314,16 +407,6 @@ Proof.
   destruct (pop_raw_nonneg mlen d G1) as [r ->]. discriminate.
 Qed.
 
-Lemma deserialize_unencrypted_no_panic data : deserialize_unencrypted data <> Panic.
-Proof.
-  unfold deserialize_unencrypted.
-  destruct (pop_raw_nonneg 8 (new_decoder data) ltac:(lia)) as [r ->]. cbn [obind].
-  destruct (pop_word 8 (snd r)) as [msgid d].
-  destruct (negb (server_parity msgid)); [discriminate|].
-  destruct (pop_word 4 d) as [mlen d'].
-  destruct (negb (Z.of_nat (length data) - 20 =? Z.of_N mlen)%Z); discriminate.
-Qed.
-
 Theorem read_dispatch_no_panic key data :
   (136 <= length key)%nat -> read_dispatch sha1 ige_d key data <> Panic.
 Proof.
@@ -379,9 +462,17 @@ Proof.
   rewrite Nat2Z.id, firstn_app_len by reflexivity. reflexivity.
 Qed.
 
-(* ---- SHA-1 output length ---- *)
+End Receive.
+
+(* ---------------------------------------------------------------------------------------- *)
+(* C03: needs the SHA-1 output length ... *)
 Section WithSha.
+Variable sha1 : bytes -> bytes.
 Hypothesis sha1_len : forall m, length (sha1 m) = 20%nat.
+Notation msg_key := (msg_key sha1).
+Notation auth_key_id := (auth_key_id sha1).
+Notation kiv := (kiv sha1).
+Notation kiv_spec := (kiv_spec sha1).
 
 Lemma msg_key_length p : length (msg_key p) = 16%nat.
 Proof. unfold Envelope.msg_key. rewrite slice_length; [reflexivity|rewrite sha1_len; lia]. Qed.
@@ -408,28 +499,46 @@ Proof.
   rewrite !app_length, !firstn_length, !skipn_length, !sha1_len. cbn. split; reflexivity.
 Qed.
 
-Lemma pkt_parts (a m c : bytes) :
-  length a = 8%nat -> length m = 16%nat ->
-  substr (a ++ m ++ c) 0 8 = a /\ substr (a ++ m ++ c) 8 16 = m /\ skipn 24 (a ++ m ++ c) = c /\
-  length (a ++ m ++ c) = (24 + length c)%nat.
+Section Layout.
+Variable ige_e : bytes -> bytes -> bytes -> bytes.
+
+(* C03 layout: byte offsets of key id / msg_key / ciphertext, both readings of every piece *)
+Theorem seal_layout key salt sid msgid seq ack body pkt :
+  seal_client sha1 ige_e key salt sid msgid seq ack body = Ok pkt ->
+  let obj := serialize_packet salt sid msgid seq ack body in
+  let p := pad_amount (length obj) in
+  obj = le64 salt ++ le64 sid ++ le64 msgid ++ le32 (seq_ack seq ack)
+        ++ le32 (N.of_nat (length body) mod 4294967296) ++ body /\
+  slice pkt 0 8 = auth_key_id key /\ auth_key_id key = spec_key_id sha1 key /\
+  slice pkt 8 24 = msg_key obj /\ msg_key obj = spec_msg_key sha1 obj /\
+  (p < 16)%nat /\ ((length obj + p) mod 16 = 0)%nat /\
+  skipn 24 pkt = ige_e (fst (kiv_spec 0 key (msg_key obj))) (snd (kiv_spec 0 key (msg_key obj)))
+                       (obj ++ repeat 0 p) /\
+  kiv 0 key (msg_key obj) = Ok (kiv_spec 0 key (msg_key obj)).
 Proof.
-  intros Ha Hm.
-  do 8 (destruct a as [|? a]; [discriminate Ha|]). destruct a; [|discriminate Ha].
-  do 16 (destruct m as [|? m]; [discriminate Hm|]). destruct m; [|discriminate Hm].
-  cbn [app]. unfold substr. cbn [skipn firstn length]. repeat split.
+  cbv zeta. unfold seal_client, encrypt.
+  set (obj := serialize_packet salt sid msgid seq ack body).
+  destruct (Nat.le_gt_cases 128 (length key)) as [Hk|Hk].
+  2:{ unfold Envelope.kiv at 1. destruct (Nat.ltb_spec (length key) (96 + 0 + 32)); [|lia]. discriminate. }
+  pose proof (kiv_is_spec sha1 true key (msg_key obj)) as Hkiv. cbn [dir_x] in Hkiv.
+  rewrite Hkiv by lia. cbn [obind].
+  destruct (negb (aes_key_len_ok (fst (kiv_spec 0 key (msg_key obj))))); [discriminate|].
+  destruct (negb (correct_data (pad16 obj))); [discriminate|].
+  intros E. injection E as <-.
+  destruct (pkt_parts (auth_key_id key) (msg_key obj)
+              (ige_e (fst (kiv_spec 0 key (msg_key obj))) (snd (kiv_spec 0 key (msg_key obj))) (pad16 obj))
+              (auth_key_id_length key) (msg_key_length obj)) as (P1 & P2 & P3 & _).
+  split; [reflexivity|]. split; [exact P1|]. split; [symmetry; apply spec_key_id_is|].
+  split; [exact P2|]. split; [symmetry; apply spec_msg_key_is|].
+  split; [apply pad_amount_lt|]. split; [apply pad_amount_aligned|].
+  split; [exact P3|]. reflexivity.
 Qed.
 
-Lemma serialize_packet_length salt sid msgid seq ack body :
-  length (serialize_packet salt sid msgid seq ack body) = (32 + length body)%nat.
-Proof. unfold serialize_packet. rewrite !app_length, !le64_length, !le32_length. lia. Qed.
+End Layout.
 
-Definition seq_ack (seq : N) (ack : bool) : N := if ack then N.lor seq 1 else seq.
-
-Lemma seq_ack_lt seq ack : seq < 4294967296 -> seq_ack seq ack < 4294967296.
-Proof. destruct ack; cbn [seq_ack]; [apply lor1_lt|auto]. Qed.
-
-(* ---- IGE: length preservation and inversion on block-aligned data ---- *)
+(* ... and, for the round trips, IGE length preservation and inversion on block-aligned data *)
 Section WithIge.
+Variables ige_e ige_d : bytes -> bytes -> bytes -> bytes.
 Hypothesis ige_e_len : forall k iv d,
   length iv = 32%nat -> (length d mod 16 = 0)%nat -> length (ige_e k iv d) = length d.
 Hypothesis ige_inv : forall k iv d,
@@ -449,7 +558,7 @@ Proof.
   unfold seal_client, encrypt.
   set (obj := serialize_packet salt sid msgid seq ack body).
   assert (Hobj : length obj = (32 + length body)%nat) by apply serialize_packet_length.
-  rewrite (kiv_is_spec true) by (cbn [dir_x]; lia). cbn [obind dir_x].
+  rewrite (kiv_is_spec sha1 true) by (cbn [dir_x]; lia). cbn [obind dir_x].
   destruct (kiv_spec_lengths 0 key (msg_key obj)) as [Hk Hiv].
   destruct (kiv_spec 0 key (msg_key obj)) as [k iv] eqn:Ekiv. cbn [fst snd] in *.
   assert (Hpl : length (pad16 obj) = (32 + length body + pad_amount (32 + length body))%nat)
@@ -531,7 +640,7 @@ Proof.
   rewrite O2. cbn [obind fst snd].
   change (slice pkt 8 24) with (firstn 16 (skipn 8 pkt)). rewrite P2.
   rewrite O3. cbn [obind fst snd]. rewrite P3.
-  unfold decrypt. rewrite (kiv_is_spec false) by (cbn [dir_x]; lia). cbn [obind dir_x]. rewrite Ekiv. cbn [fst snd].
+  unfold decrypt. rewrite (kiv_is_spec sha1 false) by (cbn [dir_x]; lia). cbn [obind dir_x]. rewrite Ekiv. cbn [fst snd].
   assert (Hkl : aes_key_len_ok k = true) by (unfold aes_key_len_ok; rewrite Hk; reflexivity).
   rewrite Hkl. cbn [negb].
   assert (Hcd : correct_data ct = true).
@@ -573,4 +682,3 @@ Qed.
 
 End WithIge.
 End WithSha.
-End Proofs.
